@@ -265,6 +265,8 @@ pub struct Scenario {
     /// (entity, n): that entity's transport accepts n PDUs and then never returns from `request` again
     /// (a flow-controlled link that has stalled: back-pressure instead of loss)
     pub stall_after: Vec<(Ent, usize)>,
+    /// sparse files of a given length planted under an entity's root (huge sources without the bytes)
+    pub plant_sparse: Vec<(Ent, String, u64)>,
 }
 
 /// A configuration that differs from `c` in every observable respect. The daemons are given the real
@@ -1083,6 +1085,12 @@ pub fn run(mut sc: Scenario, scratch: &str) -> RunLog {
             }
         }
     }
+    for (e, name, len) in &sc.plant_sparse {
+        if !sc.entities[*e].scripted {
+            let f = std::fs::File::create(format!("{}/{}", roots[*e], name)).expect("sparse file");
+            f.set_len(*len).expect("set_len");
+        }
+    }
     for (e, name, content) in &sc.plant {
         if sc.entities[*e].scripted {
             continue;
@@ -1408,7 +1416,10 @@ fn snap_rec(base: &str, rel: &str, out: &mut std::collections::BTreeMap<String, 
                     snap_rec(base, &r, out);
                 }
                 _ => {
-                    out.insert(r.clone(), Some(std::fs::read(format!("{}/{}", base, r)).unwrap_or_default()));
+                    // (sparse multi-gigabyte sources of the `huge` family are recorded by length only)
+                    let path = format!("{}/{}", base, r);
+                    let big = std::fs::metadata(&path).map(|m| m.len() > (64 << 20)).unwrap_or(false);
+                    out.insert(r.clone(), Some(if big { b"<large file>".to_vec() } else { std::fs::read(&path).unwrap_or_default() }));
                 }
             }
         }
